@@ -1,10 +1,10 @@
 from common import T_COMMON
 
 CFG = dict(
-    gen=[dict(spec="transform.json", out="Transform.lean")],
+    gen=[dict(spec="transform.json", out="Transform.lean"), dict(spec="trees.json", out="Trees.lean")],
     theorems=[
         # geometry facts about the regenerated AABB code / the hand-modelled slab test (over ℝ)
-        "aabb_lower_bound", "aabb_contains_mono", "aabb_distance_mono", "slab_mono", "aabb_encapsulate_contains",
+        "aabb_lower_bound", "aabb_contains_mono", "aabb_distance_mono", "slab_mono", "slab_sound", "aabb_encapsulate_contains",
         "seg_cp_cases", "prim_closest_in_box", "prim_box_wf",
         # pruned queries = exhaustive scan for EVERY tree with the invariant
         "pruned_eq_scan", "containing_eq_scan_generic",
@@ -15,6 +15,7 @@ CFG = dict(
         "build_covers", "octree_queries_eq_scan_of_input",
         # BVH
         "bvh_hit_eq_list", "bvh_hit_eq_list_aabb", "hitlist_nearest", "bvh_hit_eq_hitlist_any_order",
+        "bvh_build_covers", "bvh_built_hit_eq_hitlist",
     ],
     streams=[dict(name="c16", n=dict(quick=150, thorough=6000))],
     trusted=T_COMMON + [
@@ -30,13 +31,14 @@ CFG = dict(
         "observed (oracles at element vertices/box corners, corpus case), not proved",
         "an element's ClosestPoint may lie an ulp outside its own float box, so at float64 ClosestPoint can return an element that is "
         "not the nearest by less than rounding: the oracle compares by distance with relative tolerance 1e-9 (ties aside)",
-        "triangle elements (modeling.scopedTri: plane projection, PointInSide) are not modelled in Lean: for them the tree theorems apply "
-        "through the abstract hypotheses (box contains the element's closest point) and the tie is the exhaustive-scan oracle only",
         "closest_eq_scan needs, per element, that its closest point lies in its box: proved for points, segments and boxes "
-        "(prim_closest_in_box), assumed for triangles",
-        "BVH: theorems quantify over every tree satisfying BInv (boxes cover) and over primitives whose Hit reports the first hit "
-        "within the range and only inside their box; that NewBVHTree establishes BInv (bvhBuild is modelled) and that "
-        "rendering.Triangle/Sphere satisfy the primitive contract are not proved — checked by the oracles c16.holds.bvh / bvh_scan. "
+        "(prim_closest_in_box); for triangles (scopedTri.ClosestPoint: plane projection, PointInSide, nearest edge — modelled and "
+        "corresponded bit-for-bit) it is a hypothesis, not proved",
+        "BVH: theorems hold for every tree satisfying BInv (boxes cover; NewBVHTree establishes it: bvh_build_covers) and for primitives "
+        "whose Hit reports the first hit exactly when it is within the range, and only where the slab test accepts their box "
+        "(slab_sound: true whenever the hit point is in the box, range non-empty, no zero direction component); that rendering.Triangle / "
+        "Sphere satisfy this contract is not proved (ray-triangle / ray-sphere arithmetic is not modelled) — checked by the oracles "
+        "c16.holds.bvh / bvh_scan; the BVH itself has no model-vs-impl line (its shape is random), only oracles. "
         "The triangle Hit compares the distance from ray.At(min) with max (rendering/mesh.go:53), so the contract holds for "
         "min = 0 only; the harness uses min = 0 for rendering",
         "slab test over ℝ uses Lean's x/0 = 0 for axis-parallel rays, where Go relies on ±Inf/NaN: slab_mono is about the "
